@@ -54,6 +54,11 @@ pub struct Case {
     /// access: permissions must survive a resize
     #[serde(default)]
     pub pre_resize: Option<u64>,
+    /// perform the same access once while every permission is still granted, put memory and registers
+    /// back, and only then set the mask: a permission change must reach accesses that were made before
+    /// (cached decodes, cached area look-ups)
+    #[serde(default)]
+    pub warm: bool,
 }
 
 pub struct Template {
@@ -338,7 +343,7 @@ impl Property for C09 {
             4 => Path::Stack { which: t.below(STACK_OPS.len() as u64) as usize },
             _ => Path::ApiWriteCode { width: t.pick(&[1u64, 2, 4, 8, 16, 3]) },
         };
-        Case { mask, path, offset: 0x40 + 16 * t.below((TLEN - 0x80) / 16), seed: t.raw(), cf_zf: t.below(4), pre_resize: if t.below(4) == 0 { Some(if t.bool() { TLEN + 0x100 } else { TLEN - 0x20 }) } else { None } }
+        Case { mask, path, offset: 0x40 + 16 * t.below((TLEN - 0x80) / 16), seed: t.raw(), cf_zf: t.below(4), pre_resize: if t.below(4) == 0 { Some(if t.bool() { TLEN + 0x100 } else { TLEN - 0x20 }) } else { None }, warm: t.below(4) == 0 }
     }
 
     fn fixed_cases(&mut self, _tier: Tier) -> Vec<Case> {
@@ -347,44 +352,48 @@ impl Property for C09 {
         for mask in 0..8u32 {
             for template in 0..self.t.len() {
                 for cf_zf in 0..4 {
-                    v.push(Case { mask, path: Path::Operand { template }, offset: 0x100, seed: 1, cf_zf , pre_resize: None });
+                    v.push(Case { mask, path: Path::Operand { template }, offset: 0x100, seed: 1, cf_zf , pre_resize: None, warm: false });
                 }
             }
             for which in 0..STACK_OPS.len() {
-                v.push(Case { mask, path: Path::Stack { which }, offset: 0x100, seed: 2, cf_zf: 0 , pre_resize: None });
+                v.push(Case { mask, path: Path::Stack { which }, offset: 0x100, seed: 2, cf_zf: 0 , pre_resize: None, warm: false });
             }
             for width in [1u64, 2, 4, 8, 16, 3] {
-                v.push(Case { mask, path: Path::ApiRead { width }, offset: 0x100, seed: 3, cf_zf: 0 , pre_resize: None });
-                v.push(Case { mask, path: Path::ApiWrite { width }, offset: 0x100, seed: 4, cf_zf: 0 , pre_resize: None });
-                v.push(Case { mask, path: Path::ApiWriteCode { width }, offset: 0x100, seed: 5, cf_zf: 0 , pre_resize: None });
+                v.push(Case { mask, path: Path::ApiRead { width }, offset: 0x100, seed: 3, cf_zf: 0 , pre_resize: None, warm: false });
+                v.push(Case { mask, path: Path::ApiWrite { width }, offset: 0x100, seed: 4, cf_zf: 0 , pre_resize: None, warm: false });
+                v.push(Case { mask, path: Path::ApiWriteCode { width }, offset: 0x100, seed: 5, cf_zf: 0 , pre_resize: None, warm: false });
             }
-            v.push(Case { mask, path: Path::Fetch, offset: 0x100, seed: 6, cf_zf: 0, pre_resize: None });
+            v.push(Case { mask, path: Path::Fetch, offset: 0x100, seed: 6, cf_zf: 0, pre_resize: None, warm: false });
+            v.push(Case { mask, path: Path::Fetch, offset: 0x100, seed: 14, cf_zf: 0, pre_resize: None, warm: true });
+            for template in [0usize, 30, 40] {
+                v.push(Case { mask, path: Path::Operand { template: template % self.t.len() }, offset: 0x100, seed: 15, cf_zf: 0, pre_resize: None, warm: true });
+            }
             for kind in 0..6u8 {
                 let size = [16u64, 8, 16, 8, 8, 3][kind as usize];
                 for nmask in 0..8u32 {
                     for inside in [1, size / 2, size - 1] {
-                        v.push(Case { mask, path: Path::Straddle { kind, nmask, inside }, offset: 0x100, seed: 7, cf_zf: 0 , pre_resize: None });
+                        v.push(Case { mask, path: Path::Straddle { kind, nmask, inside }, offset: 0x100, seed: 7, cf_zf: 0 , pre_resize: None, warm: false });
                     }
                 }
             }
             for nmask in 0..8u32 {
                 for split in 1..7u64 {
-                    v.push(Case { mask, path: Path::FetchStraddle { nmask, split }, offset: 0x100, seed: 9, cf_zf: 0, pre_resize: None });
+                    v.push(Case { mask, path: Path::FetchStraddle { nmask, split }, offset: 0x100, seed: 9, cf_zf: 0, pre_resize: None, warm: false });
                 }
             }
             for pre in [TLEN + 0x100, TLEN - 0x20] {
                 for template in 0..self.t.len() {
-                    v.push(Case { mask, path: Path::Operand { template }, offset: 0x100, seed: 10, cf_zf: 1, pre_resize: Some(pre) });
+                    v.push(Case { mask, path: Path::Operand { template }, offset: 0x100, seed: 10, cf_zf: 1, pre_resize: Some(pre), warm: false });
                 }
                 for width in [1u64, 8, 16] {
-                    v.push(Case { mask, path: Path::ApiRead { width }, offset: 0x100, seed: 11, cf_zf: 0, pre_resize: Some(pre) });
-                    v.push(Case { mask, path: Path::ApiWrite { width }, offset: 0x100, seed: 12, cf_zf: 0, pre_resize: Some(pre) });
+                    v.push(Case { mask, path: Path::ApiRead { width }, offset: 0x100, seed: 11, cf_zf: 0, pre_resize: Some(pre), warm: false });
+                    v.push(Case { mask, path: Path::ApiWrite { width }, offset: 0x100, seed: 12, cf_zf: 0, pre_resize: Some(pre), warm: false });
                 }
-                v.push(Case { mask, path: Path::Fetch, offset: 0x100, seed: 13, cf_zf: 0, pre_resize: Some(pre) });
+                v.push(Case { mask, path: Path::Fetch, offset: 0x100, seed: 13, cf_zf: 0, pre_resize: Some(pre), warm: false });
             }
             for kind in 0..5u8 {
                 for exact_page in [false, true] {
-                    v.push(Case { mask, path: Path::Elf { kind, exact_page }, offset: 0x100, seed: 8, cf_zf: 0 , pre_resize: None });
+                    v.push(Case { mask, path: Path::Elf { kind, exact_page }, offset: 0x100, seed: 8, cf_zf: 0 , pre_resize: None, warm: false });
                 }
             }
         }
@@ -436,18 +445,65 @@ impl Property for C09 {
         }
         ax.mem_init_area(TARGET, tdata.clone()).unwrap();
         ax.mem_init_area_named(STACK, vec![0u8; 0x200], Some("Stack".into())).unwrap();
+        let set_regs = |ax: &mut Axecutor| {
+            init_regs(ax, c.seed);
+            ax.reg_write_64(SR::RIP, start_rip).unwrap();
+            ax.reg_write_64(SR::RBX, TARGET + c.offset).unwrap();
+            ax.reg_write_64(SR::RAX, 0x0102_0304_0506_0708).unwrap(); // non-zero divisor context, harmless values
+            ax.reg_write_64(SR::RDX, 0).unwrap();
+            ax.reg_write_64(SR::RCX, 3).unwrap();
+            ax.reg_write_64(SR::RSP, if matches!(c.path, Path::Stack { .. }) { TARGET + c.offset } else { STACK + 0x100 }).unwrap();
+            ax.verif_set_rflags((if c.cf_zf & 1 != 0 { 1 } else { 0 }) | (if c.cf_zf & 2 != 0 { 0x40 } else { 0 }));
+        };
+        let access = |ax: &mut Axecutor| -> Api<()> {
+            match &c.path {
+                Path::ApiRead { width } => api(|| {
+                    match width {
+                        1 => ax.mem_read_8(TARGET + c.offset).map(|_| ()),
+                        2 => ax.mem_read_16(TARGET + c.offset).map(|_| ()),
+                        4 => ax.mem_read_32(TARGET + c.offset).map(|_| ()),
+                        8 => ax.mem_read_64(TARGET + c.offset).map(|_| ()),
+                        16 => ax.mem_read_128(TARGET + c.offset).map(|_| ()),
+                        n => ax.mem_read_bytes(TARGET + c.offset, *n).map(|_| ()),
+                    }
+                }),
+                Path::ApiWrite { width } | Path::ApiWriteCode { width } => {
+                    let a = if matches!(c.path, Path::ApiWriteCode { .. }) { CODE_AT + 1 } else { TARGET + c.offset };
+                    api(|| match width {
+                        1 => ax.mem_write_8(a, 0x5a),
+                        2 => ax.mem_write_16(a, 0x5a5a),
+                        4 => ax.mem_write_32(a, 0x5a5a_5a5a),
+                        8 => ax.mem_write_64(a, 0x5a5a_5a5a_5a5a_5a5a),
+                        16 => ax.mem_write_128(a, 0x5a5a_5a5a_5a5a_5a5a_5a5a),
+                        n => ax.mem_write_bytes(a, &vec![0x5a; *n as usize]),
+                    })
+                }
+                _ => match step(ax) {
+                    Api::Ok(_) => Api::Ok(()),
+                    Api::Err(e) => Api::Err(e),
+                    Api::Panic(p) => Api::Panic(p),
+                },
+            }
+        };
+        if c.warm {
+            ax.mem_prot(TARGET, 7).unwrap();
+            set_regs(&mut ax);
+            if let Api::Panic(p) = access(&mut ax) {
+                return CaseOut::fail(format!("C09|warm-up|{}", p.signature()), format!("the access crashed with every permission granted: {} at {}", p.message, p.location));
+            }
+            if ax.verif_finished() {
+                return CaseOut::discard("warm-up-access-ended-the-run");
+            }
+            ax.mem_write_bytes(TARGET, &tdata).unwrap();
+            ax.mem_write_bytes(STACK, &[0u8; 0x200]).unwrap();
+        }
         ax.mem_prot(TARGET, c.mask).unwrap();
         if let Some(sz) = c.pre_resize {
             if ax.mem_resize_section(TARGET, sz).is_err() {
                 return CaseOut::fail("HARNESS-FAULT|C09-resize".into(), "could not resize the target area".into());
             }
         }
-        ax.reg_write_64(SR::RBX, TARGET + c.offset).unwrap();
-        ax.reg_write_64(SR::RAX, 0x0102_0304_0506_0708).unwrap(); // non-zero divisor context, harmless values
-        ax.reg_write_64(SR::RDX, 0).unwrap();
-        ax.reg_write_64(SR::RCX, 3).unwrap();
-        ax.reg_write_64(SR::RSP, if matches!(c.path, Path::Stack { .. }) { TARGET + c.offset } else { STACK + 0x100 }).unwrap();
-        ax.verif_set_rflags((if c.cf_zf & 1 != 0 { 1 } else { 0 }) | (if c.cf_zf & 2 != 0 { 0x40 } else { 0 }));
+        set_regs(&mut ax);
         let before = ax.verif_areas();
         let (r, w, x) = (c.mask & 1 != 0, c.mask & 2 != 0, c.mask & 4 != 0);
 
@@ -460,34 +516,7 @@ impl Property for C09 {
             Path::Stack { which } => (if STACK_OPS[*which].2 { Role::Write } else { Role::Read }, "stack"),
             _ => unreachable!(),
         };
-        let res: Api<()> = match &c.path {
-            Path::ApiRead { width } => api(|| {
-                match width {
-                    1 => ax.mem_read_8(TARGET + c.offset).map(|_| ()),
-                    2 => ax.mem_read_16(TARGET + c.offset).map(|_| ()),
-                    4 => ax.mem_read_32(TARGET + c.offset).map(|_| ()),
-                    8 => ax.mem_read_64(TARGET + c.offset).map(|_| ()),
-                    16 => ax.mem_read_128(TARGET + c.offset).map(|_| ()),
-                    n => ax.mem_read_bytes(TARGET + c.offset, *n).map(|_| ()),
-                }
-            }),
-            Path::ApiWrite { width } | Path::ApiWriteCode { width } => {
-                let a = if matches!(c.path, Path::ApiWriteCode { .. }) { CODE_AT + 1 } else { TARGET + c.offset };
-                api(|| match width {
-                    1 => ax.mem_write_8(a, 0x5a),
-                    2 => ax.mem_write_16(a, 0x5a5a),
-                    4 => ax.mem_write_32(a, 0x5a5a_5a5a),
-                    8 => ax.mem_write_64(a, 0x5a5a_5a5a_5a5a_5a5a),
-                    16 => ax.mem_write_128(a, 0x5a5a_5a5a_5a5a_5a5a_5a5a),
-                    n => ax.mem_write_bytes(a, &vec![0x5a; *n as usize]),
-                })
-            }
-            _ => match step(&mut ax) {
-                Api::Ok(_) => Api::Ok(()),
-                Api::Err(e) => Api::Err(e),
-                Api::Panic(p) => Api::Panic(p),
-            },
-        };
+        let res: Api<()> = access(&mut ax);
         let mut out = CaseOut::pass(false, hash_json(c));
         let desc = format!("{} path, {} on an area with mask {}{}{} ({})", kind, what, if r { "R" } else { "-" }, if w { "W" } else { "-" }, if x { "X" } else { "-" }, match &c.path {
             Path::ApiRead { width } => format!("mem_read {} bytes", width),
@@ -528,6 +557,9 @@ impl Property for C09 {
         if c.pre_resize.is_some() {
             out = out.class("after-resize");
         }
+        if c.warm {
+            out = out.class("after-warm-up-access");
+        }
         out.nontrivial = must_fail || c.mask != 3;
         if must_fail {
             out = out.class("denial");
@@ -560,10 +592,10 @@ impl Property for C09 {
     }
 
     fn rule(&self) -> String {
-        "fixed: the complete grid 8 masks × (55 guest instruction templates by operand role × 4 CF/ZF states, 7 implicit stack instructions, API reads/writes of 1/2/3/4/8/16 bytes, API writes into the constructor's code area, instruction fetch, stores that run from the target area into a directly adjacent area of any mask, and all five access kinds on a segment loaded from a generated ELF with p_flags = mask, with and without zero padding, an instruction split across the end of the code area and an adjacent area of any mask; for 1/4 of the cases the target area is resized after its mask was set); random: the same grid with random offsets and register contents; oracle = enforcement model (read needs R, write needs W, read-modify-write needs R and W, fetch needs X): a missing bit ⇒ Err and every area byte-identical; success is required when the mask also contains R; non-trivial = a denial, or any case on a mask other than RW; distinct by hash(case)".into()
+        "fixed: the complete grid 8 masks × (55 guest instruction templates by operand role × 4 CF/ZF states, 7 implicit stack instructions, API reads/writes of 1/2/3/4/8/16 bytes, API writes into the constructor's code area, instruction fetch, stores that run from the target area into a directly adjacent area of any mask, and all five access kinds on a segment loaded from a generated ELF with p_flags = mask, with and without zero padding, an instruction split across the end of the code area and an adjacent area of any mask; for 1/4 of the cases the target area is resized after its mask was set, for 1/4 the same access is first made once with every permission granted and state put back); random: the same grid with random offsets and register contents; oracle = enforcement model (read needs R, write needs W, read-modify-write needs R and W, fetch needs X): a missing bit ⇒ Err and every area byte-identical; success is required when the mask also contains R; non-trivial = a denial, or any case on a mask other than RW; distinct by hash(case)".into()
     }
     fn required_classes(&self, _tier: Tier) -> Vec<String> {
-        let mut v = vec!["denial".into(), "allowance".into(), "tier:fixed".into(), "after-resize".into()];
+        let mut v = vec!["denial".into(), "allowance".into(), "tier:fixed".into(), "after-resize".into(), "after-warm-up-access".into()];
         for k in ["api", "operand", "stack", "fetch", "straddle", "elf-segment", "fetch-straddle"] {
             v.push(format!("kind:{}", k));
         }
